@@ -130,7 +130,9 @@ class SendSim(simncp.SimNcp):
             "failure": [(0.02, dest, tag, fail)],
             "none": [],
             "duplicate": [(0.02, dest, tag, 0), (0.03, dest, tag, 0), (0.04, dest, tag, fail)],
-            "wrong-tag": [(0.02, dest, (tag + 1) % 256, 0, wm)],
+            # v14 carries 16-bit tags: a foreign tag may share its low byte with ours
+            "wrong-tag": [(0.02, dest, ((tag + 1) % 256) if not (self.v14 and self.plan["reqs"][i].get("wide")) else (tag + 0x100 * (1 + self.plan["reqs"][i]["wide"] % 5)) & 0xFFFF, 0, wm)],
+            "wrong-tag-then-failure": [(0.02, dest, ((tag + 1) % 256) if not self.v14 else (tag + 0x100) & 0xFFFF, 0, wm), (0.05, dest, tag, fail)],
             "wrong-dest": [(0.02, (dest + 0x100) & 0xFFFF, tag, 0, wm)],
             "wrong-dest-index": [(0.02, i + 1, tag, 0, wm)],
             "wrong-dest-then-failure": [(0.02, (dest + 0x100) & 0xFFFF, tag, 0, wm), (0.05, dest, tag, fail)],
@@ -179,7 +181,7 @@ def expected(req, v14):
             conf = req.get("conf", "success")
             if conf in ("success", "early", "duplicate", "wrong-then-right", "late-success"):
                 return ("ok", k + 1, t)
-            if conf in ("failure", "wrong-dest-then-failure"):
+            if conf in ("failure", "wrong-dest-then-failure", "wrong-tag-then-failure"):
                 return ("DeliveryError", k + 1, t)
             return ("TimeoutError", k + 1, t)
         if st_ in BUSY[v14]:
@@ -303,7 +305,7 @@ def check(plan) -> Result:
             own = [c for c in sim.confs if c[1] == dev_nwk(i) and acc and c[2] == acc[1] and c[3] == 0]
             if not own or got[2] < own[0][0] - 1e-9:
                 r.bad("C12:returned-before-own-confirmation", f"request {i}: returned at {got[2]}, own confirmations {own}; plan {plan}")
-        if req.get("conf") in ("wrong-tag", "wrong-dest", "wrong-dest-index", "wrong-dest-then-failure", "duplicate", "wrong-then-right", "late-success", "early"):
+        if req.get("conf") in ("wrong-tag", "wrong-tag-then-failure", "wrong-dest", "wrong-dest-index", "wrong-dest-then-failure", "duplicate", "wrong-then-right", "late-success", "early"):
             flags.add("mismatching-or-odd-confirmation")
     if out["pending_left"]:
         r.bad("C12:pending-entry-left", f"{out['pending_left']} entries; plan {plan}")
@@ -362,7 +364,8 @@ def plans(draw, versions=(4, 8, 13, 14)):
                 break
         req = {"kind": kind, "at": round(t * 0.01 + 0.003, 4), "enqueue": enq,
                "conf": draw(st.sampled_from(["success", "success", "failure", "none", "duplicate", "early", "wrong-tag", "wrong-dest",
-                                             "wrong-dest-index", "wrong-dest-then-failure", "wrong-then-right", "late-success"])),
+                                             "wrong-dest-index", "wrong-dest-then-failure", "wrong-tag-then-failure", "wrong-then-right", "late-success"])),
+               "wide": draw(st.integers(0, 4)),
                "wmtype": draw(st.sampled_from([0, 0, 1, 2, 3, 4, 9])),
                "failcode": draw(st.integers(0, 2))}
         if kind == "uni-ext":
